@@ -75,6 +75,8 @@ def ops_for(fnlabel):
     }
     if fnlabel in m:
         return m[fnlabel]
+    if fnlabel.startswith('HasChildren::'):
+        return ['dom.tree_atomic']
     if fnlabel == 'dom::XmlNode::order':
         return ['dom.order_keys']
     if fnlabel.startswith('DocumentOrder::') or fnlabel.startswith('HasContext::'):
